@@ -52,6 +52,7 @@ type c34cfg struct {
 	noloop  bool
 	setpx   bool
 	nocsc   bool // ClientOption.DisableCache: no client side caching, waiters poll
+	replypt bool // scheduling point between the server executing a command and its reply reaching the caller
 	p       int  // preemption bound in the quick tier
 	tier    int  // 0 quick+thorough, 1 thorough only
 }
@@ -124,6 +125,7 @@ func c34body(c c34cfg) func(x *vsched.Exec) {
 				ClientBuilder: func(o rueidis.ClientOption) (rueidis.Client, error) {
 					cl := rueidis.NewVerifSimClient(srv, o)
 					cl.Latency = c.lat
+					cl.ReplyPoint = c.replypt
 					cl.StartReader("reader" + strconv.Itoa(idx))
 					clients = append(clients, cl)
 					return cl, nil
@@ -433,6 +435,9 @@ func c34body(c c34cfg) func(x *vsched.Exec) {
 							x.Fail("lock context not cancelled after the holder lost its keys / connection", "thread %d (locker %d): had to be cancelled from %v on (event %s), still live at %v; %s", ti, h.locker, h.mustAt, c.event, h.doneAt, describe())
 						case h.lostMaj && h.doneAt-h.lostAt > c34interval:
 							x.Fail("lock context cancelled late after losing the majority of keys", "thread %d: lost at %v, context done seen at %v (> one extend interval %v)", ti, h.lostAt, h.doneAt, c34interval)
+						case h.lostMaj && h.doneAt != h.lostAt && !c.nocsc && c.lat == 0 && !clients[h.locker].Lost:
+							// with client-side caching the loss is announced by an invalidation push: nothing has to wait for a timer
+							x.Fail("lock context cancelled only by the periodic extension although the loss of the keys was announced by an invalidation", "thread %d: lost at %v, context done seen at %v; %s", ti, h.lostAt, h.doneAt, describe())
 						case h.lostMaj && h.doneAt == h.lostAt:
 							res += "(cancelled-at-once)"
 						case h.lostMaj:
@@ -565,6 +570,8 @@ func c34cfgs() []c34cfg {
 		{name: "2lockers-with-withc-m1-cancel", majority: 1, lockers: 2, thr: []c34thr{{0, w, 0}, {1, "withc", 0}}, event: "cancel", p: 1},
 		{name: "1locker-with-withc-with-m1-cancel", majority: 1, lockers: 1, thr: []c34thr{{0, w, 0}, {0, "withc", 0}, {0, w, 0}}, event: "cancel", p: 1},
 		{name: "2lockers-with-with-m1-extdel", majority: 1, lockers: 2, thr: two, event: "del", p: 1},
+		{name: "2lockers-with-try-m1-extdel-replypt", majority: 1, lockers: 2, thr: []c34thr{{0, w, 0}, {1, t, 0}}, event: "del", replypt: true, p: 1},
+		{name: "2lockers-with-with-m1-extdel-replypt", majority: 1, lockers: 2, thr: two, event: "del", replypt: true, p: 1},
 		{name: "2lockers-with-with-m1-lose", majority: 1, lockers: 2, thr: two, event: "lose", p: 1},
 		{name: "2lockers-with-with-m1-losere", majority: 1, lockers: 2, thr: two, event: "losere", p: 1},
 		{name: "2lockers-with-with-m1-close", majority: 1, lockers: 2, thr: two, event: "close", p: 1},
@@ -574,6 +581,8 @@ func c34cfgs() []c34cfg {
 		{name: "2lockers-with-with-m1-setpx", majority: 1, lockers: 2, thr: two, setpx: true, p: 1},
 		{name: "2lockers-with-with-m1-nocsc", majority: 1, lockers: 2, thr: two, nocsc: true, p: 1},
 		{name: "2lockers-relock-m1", majority: 1, lockers: 2, thr: []c34thr{{0, w, 2}, {1, w, 0}}, p: 1},
+		{name: "solo-relock-m2-noloop", majority: 2, lockers: 1, thr: []c34thr{{0, w, 3}}, noloop: true, p: 2},
+		{name: "2lockers-relock-m2-noloop", majority: 2, lockers: 2, thr: []c34thr{{0, w, 2}, {1, w, 0}}, noloop: true, p: 1},
 		{name: "2lockers-with-with-m2", majority: 2, lockers: 2, thr: two, p: 1},
 		{name: "2lockers-with-with-m2-extdel", majority: 2, lockers: 2, thr: two, event: "del", p: 0},
 		{name: "2lockers-with-try-m2-extdel1", majority: 2, lockers: 2, thr: []c34thr{{0, w, 0}, {1, t, 0}}, event: "del1", p: 1, tier: 1},
@@ -591,7 +600,7 @@ func TestVerif_C34(t *testing.T) {
 		r.Rule = "every schedule (preemption/delay/deviation bounded) of 2-3 threads acquiring one lock name through real Lockers over a fake Redis; non-trivial = threads really blocked on each other"
 		r.Assume("simredis models Redis 7 tracking: keys read by GET inside a script are tracked for the caller (OPTOUT), PEXPIREAT/SET/DEL/expiry invalidate, self-invalidations follow the reply unless NOLOOP; keys expire exactly on time (idealised active expiry)")
 		r.Assume("the fake client delivers invalidation pushes through one reader thread per client; connection loss is Lose() (OnInvalidations(nil), every later command fails until Reconnect)")
-		r.Assume("mutual exclusion is only demanded of holders that did not lose keys to an external DEL or a forced take-over (the statement's precondition); 'promptly' = within one extend interval of virtual time; extension timers are never starved (no early timers)")
+		r.Assume("mutual exclusion is only demanded of holders that did not lose keys to an external DEL or a forced take-over (the statement's precondition); 'promptly' = without any passage of virtual time when client-side caching is on and the holder's connection is alive (the loss is announced by an invalidation push), within one extend interval otherwise; extension timers are never starved (no early timers)")
 		r.Note("without NoLoopTracking every extension invalidates the holder's own tracking of the key, which triggers the next extension at once (the 'Tracking Loop' of the repository's tests): program 2lockers-with-with-m1-longhold-latency counts the PEXPIREATs of a 1.5 s hold with 20 ms round trips in its outcome (NOLOOP: 1-2)")
 		r.Note("the missed wake-up 'gate dropped from locker.gates' has one root cause and is reported by program " + c34gateProg + " only; the other programs count it as an outcome")
 		var cfgs []c34cfg
